@@ -464,6 +464,21 @@ func (c *Ctx) typedRules(r *Report, scope map[*ssa.Function]bool) {
 					w = append(w, ww...)
 				}
 			}
+			if host := in.Parent(); c.Fn("(*Parser).marshalError") == nil && c.isNew(host) {
+				fn := host
+				// marshalError replaced by a differently shaped helper: it is recognised by being called exactly
+				// from where conversion failures surface (the tail of parseOption, the defaults pass)
+				onlyThere := true
+				for _, owner := range c.ownerNames(fn) {
+					if owner != "(*Parser).parseOption" && !strings.HasPrefix(owner, "(*Parser).ParseArgs") && owner != c.fname(fn) {
+						onlyThere = false
+					}
+				}
+				if onlyThere {
+					known = true
+					w = append(w, "ErrMarshal")
+				}
+			}
 			ok := known
 			for _, t := range types_ {
 				f := false
